@@ -75,10 +75,9 @@ fn check_pair(acc: &mut Acc, idx: usize, a: &Shape, b: &Shape, tag: &str) {
     }
     // exact power-of-two scalings of both operands (2^-30 and 2^30): the distance must be the scaled exact distance (no absolute threshold anywhere)
     if tag.is_empty() && idx % 3 == 0 {
-        use geo::MapCoords;
         for sc in [1.0 / 1073741824.0, 1073741824.0] {
             acc.evals += 1;
-            let (sa, sb) = (a.g.map_coords(|c| geo::Coord { x: c.x * sc, y: c.y * sc }), b.g.map_coords(|c| geo::Coord { x: c.x * sc, y: c.y * sc }));
+            let (sa, sb) = (map_geom_f(&a.g, &|c| geo::Coord { x: c.x * sc, y: c.y * sc }), map_geom_f(&b.g, &|c| geo::Coord { x: c.x * sc, y: c.y * sc }));
             match guard(|| distance_concrete(&sa, &sb)) {
                 Err(e) => acc.viol(format!("distance {}x{} panic at scale {:e}", a.ty(), b.ty(), sc), idx, || json!({"a": a.wkt(), "b": b.wkt(), "panic": e})),
                 Ok(d) => {
@@ -184,7 +183,7 @@ pub fn run(mut run: Run) -> i32 {
         .map(|s| {
             let ag = s.ag.map(&dbl);
             use geo::MapCoords;
-            Shape::new(ag, s.g.map_coords(|c| geo::Coord { x: 2.0 * c.x, y: 2.0 * c.y }), s.fam)
+            Shape::new(ag, map_geom_f(&s.g, &|c| geo::Coord { x: 2.0 * c.x, y: 2.0 * c.y }), s.fam)
         })
         .collect();
     let (nd, ni) = (dshapes.len(), inner.len());
